@@ -30,6 +30,8 @@ SMALL_POS = [1e-7, 1e-5, 2.5e-5, 9.999e-5, 1e-4, 3e-6]
 SMALL_ANGLE = [1e-9, 1e-6, -1e-7, 1e-5, 9e-5, -1e-4, 0.0]
 COORDS = [1e5, -1e5, 1e-7, -1e-6, 123456.789, 99999.99999, 1e-5, 5e-5]
 DTS = [1e-3, 1e-5, 0.001, 2.5e-4, 10.0, 1e-4]
+WIDE_ARCS = [[-3.14159, 3.14159], [-3.1415926, 3.1415926], [0.0, 6.28318], [-6.28318, -0.00001], [-3.1, 3.18318],
+             [-1.57079632, 4.71238898]]
 LOCS = [1e-5, -1e-6, 89.99999, 1e-7, 0.00001234]
 
 
@@ -77,6 +79,9 @@ def extremize_state(s, ch):
         if isinstance(v, dict):
             if "shape" in v:
                 extremize_shape(v["shape"], ch)
+            elif "ai" in v and k == "orientation":
+                # "any heading": angle intervals just short of the full circle (the reader demands width < 2 pi)
+                v["ai"] = ch.pick(WIDE_ARCS, v["ai"])
             continue
         if k == "position":
             s["a"][k] = [ch.pick(COORDS, v[0]), ch.pick(COORDS, v[1])]
